@@ -49,6 +49,10 @@ func (n *AhocorasickSlimtrie) AddSet(bitIndex int, patterns []string, typ consts
 	if n.err != nil {
 		return
 	}
+	if bitIndex < 0 || bitIndex >= len(n.toBuildTrie) {
+		n.err = fmt.Errorf("domain rule index %v is out of range: at most %v rules are supported", bitIndex, len(n.toBuildTrie))
+		return
+	}
 nextPattern:
 	for _, d := range patterns {
 		switch typ {
